@@ -44,7 +44,6 @@ fn extract_symbol<'a>(
     MemberProp::PrivateName(ident) => Some(ident.name()),
     MemberProp::Computed(prop) => match &prop.expr {
       Expr::Lit(Lit::Str(s)) => Some(s.value()),
-      Expr::Ident(ident) => Some(ident.sym()),
       Expr::Tpl(Tpl { exprs, quasis, .. })
         if exprs.is_empty() && quasis.len() == 1 =>
       {
